@@ -1,19 +1,19 @@
-// K-C16 (part 2): adversarial op sequences on the real QpMcBoxDecomp (protected members
-// through a subclass) over a synthetic symmetric kernel matrix given entry by entry.
-// Same line protocol as lean/Driver/C16.lean (`box`, `smo`, `deactvar`, `deactex`, `shrink`,
-// `unshrink`, `adddelta`, `label`, `select1`).  After every op the complete state is printed
-// (doubles as bit patterns) followed by ` #x=<1|0>`: 1 iff no floating-point operation since
-// the construction of the problem raised FE_INEXACT (then the Rat model must agree exactly).
-// An independent oracle recomputes tables / box / gradient and appends ` !oracle <tag>`.
-// everything the header needs is included first, so that the access override touches QpMcBoxDecomp.h only
-// (it exposes BiasSolver::performBiasUpdate, a private member, to a subclass)
+// K-C16 (part 3): adversarial op sequences on the real QpMcSimplexDecomp (protected members
+// through a subclass) over a synthetic symmetric kernel matrix given entry by entry, and whole runs of
+// QpSolver<QpMcSimplexDecomp>::solve.  Same line protocol as lean/Driver/C16.lean (`sbox`, `xsmo`,
+// `xdeactvar`, `xkillex`, `xshrink`, `xunshrink`, `xadddelta`, `xlabel`, `xselect`, `xkkt`, `xsolve`).
+// After every op the complete state is printed (doubles as bit patterns, including every example's
+// varsum).  An independent oracle recomputes tables / simplex constraint / gradient / varsum and appends
+// ` !oracle <tag>`.
+// everything the header needs is included first, so that the access override touches QpMcSimplexDecomp.h only
+// (it exposes BiasSolverSimplex::performBiasUpdate, a private member, to a subclass)
 #include <shark/Algorithms/QP/QpSolver.h>
 #include <shark/Algorithms/QP/QpSparseArray.h>
 #include <shark/Algorithms/QP/Impl/AnalyticProblems.h>
 #include <shark/Core/Timer.h>
 #include <shark/Data/Dataset.h>
 #define private protected
-#include <shark/Algorithms/QP/QpMcBoxDecomp.h>
+#include <shark/Algorithms/QP/QpMcSimplexDecomp.h>
 #undef private
 #include <shark/Algorithms/QP/QpSolver.h>
 #include "common.hpp"
@@ -57,17 +57,28 @@ struct SynthMatrix{
 	void flipColumnsAndRows(std::size_t i, std::size_t j){ std::swap(perm[i], perm[j]); }
 };
 
-struct Probe: public QpMcBoxDecomp<SynthMatrix>{
-	typedef QpMcBoxDecomp<SynthMatrix> Base;
+struct Probe: public QpMcSimplexDecomp<SynthMatrix>{
+	typedef QpMcSimplexDecomp<SynthMatrix> Base;
 	Probe(SynthMatrix& km, QpSparseArray<double> const& M, Data<unsigned int> const& t, RealMatrix const& lin, double C)
 	: Base(km, M, t, lin, C){}
 	void dvar(std::size_t v){ this->deactivateVariable(v); }
-	void dex(std::size_t e){ this->deactivateExample(e); }
 	std::size_t aE() const{ return this->m_activeEx; }
 	std::size_t aV() const{ return this->m_activeVar; }
-	std::size_t exActive(std::size_t e) const{ return this->m_examples[e].active; }
-	void killex(std::size_t e){ while(this->m_examples[e].active > 0) this->deactivateVariable(this->m_examples[e].avar[this->m_examples[e].active - 1]); }
+	void killex(std::size_t e){ std::size_t k = this->m_examples[e].active; for(std::size_t t = 0; t != k; ++t) this->deactivateVariable(this->m_examples[e].avar[this->m_examples[e].active - 1]); }
 
+	// (original example index, p) -> (alpha, gradient, active, varsum of the example) — for the shrink oracle
+	struct VarInfo{ double a, g, vs; bool active; };
+	std::vector<VarInfo> snapshot() const{
+		std::size_t P = this->m_cardP;
+		std::vector<VarInfo> r(this->m_numVariables);
+		for(std::size_t v = 0; v != this->m_numVariables; ++v){
+			Variable const& x = this->m_variables[v];
+			Example const& e = this->m_examples[x.example];
+			VarInfo vi; vi.a = this->m_alpha(v); vi.g = this->m_gradient(v); vi.vs = e.varsum; vi.active = v < this->m_activeVar;
+			r[e.index * P + x.p] = vi;
+		}
+		return r;
+	}
 	std::string dump() const{
 		std::ostringstream os;
 		std::size_t nv = this->m_numVariables, P = this->m_cardP;
@@ -80,7 +91,7 @@ struct Probe: public QpMcBoxDecomp<SynthMatrix>{
 		os << "] E=[";
 		for(std::size_t i = 0; i != this->m_numExamples; ++i){
 			Example const& e = this->m_examples[i];
-			os << (i ? ";" : "") << e.index << ":" << e.y << ":" << e.active << ":";
+			os << (i ? ";" : "") << e.index << ":" << e.y << ":" << e.active << ":" << bits(e.varsum) << ":";
 			for(std::size_t p = 0; p != P; ++p) os << (p ? "." : "") << e.var[p];
 			os << ":";
 			for(std::size_t p = 0; p != P; ++p) os << (p ? "." : "") << e.avar[p];
@@ -88,7 +99,7 @@ struct Probe: public QpMcBoxDecomp<SynthMatrix>{
 		os << "] V=[";
 		for(std::size_t v = 0; v != nv; ++v){
 			Variable const& x = this->m_variables[v];
-			os << (v ? ";" : "") << x.i << ":" << x.p << ":" << x.index << ":" << bits(x.diagonal);
+			os << (v ? ";" : "") << x.example << ":" << x.p << ":" << x.index << ":" << bits(x.diagonal);
 		}
 		os << "]";
 		return os.str();
@@ -108,25 +119,35 @@ struct Probe: public QpMcBoxDecomp<SynthMatrix>{
 			if(ex.active > P) os << " !oracle tables-active-count";
 			for(std::size_t p = 0; p != P; ++p){
 				std::size_t v = ex.var[p];
-				if(v >= nv || this->m_variables[v].i != e || this->m_variables[v].p != p){ os << " !oracle tables-var e=" << e << " p=" << p; break; }
+				if(v >= nv || this->m_variables[v].example != e || this->m_variables[v].p != p){ os << " !oracle tables-var e=" << e << " p=" << p; break; }
 				std::size_t w = ex.avar[p];
-				if(w >= nv || this->m_variables[w].i != e || this->m_variables[w].index != p){ os << " !oracle tables-avar e=" << e << " b=" << p; break; }
+				if(w >= nv || this->m_variables[w].example != e || this->m_variables[w].index != p){ os << " !oracle tables-avar e=" << e << " b=" << p; break; }
 				if((p < ex.active) != (w < this->m_activeVar)){ os << " !oracle tables-active-partition e=" << e << " b=" << p; break; }
 			}
 			if(e >= this->m_activeEx && ex.active != 0) os << " !oracle tables-inactive-example-has-active-variables";
 		}
-		// box
+		// simplex: alpha >= 0, sum over the variables of an example <= C (the code snaps varsum to 0 / C within 1e-14,
+		// so the sum may exceed C by that much: mc_simplex_inv), varsum in [0, C] and equal to the sum up to the snapping
 		for(std::size_t v = 0; v != nv; ++v)
-			if(!(this->m_alpha(v) >= 0.0 && this->m_alpha(v) <= C)){ os << " !oracle box v=" << v; break; }
+			if(!(this->m_alpha(v) >= 0.0)){ os << " !oracle simplex-negative v=" << v; break; }
+		for(std::size_t e = 0; e != n; ++e){
+			Example const& ex = this->m_examples[e];
+			double sum = 0; for(std::size_t p = 0; p != P; ++p) sum += this->m_alpha(ex.var[p]);
+			double slack = 1e-12 * C * P + 2e-14;
+			if(!(sum <= C + slack)){ os << " !oracle simplex-sum e=" << e; break; }
+			if(!(ex.varsum >= 0.0 && ex.varsum <= C)){ os << " !oracle varsum-range e=" << e; break; }
+			if(!(std::fabs(ex.varsum - sum) <= slack)){ os << " !oracle varsum-drift e=" << e; break; }
+			if(ex.diagonal != K0[ex.index * n + ex.index]){ os << " !oracle example-diagonal e=" << e; break; }
+		}
 		// gradient of the active variables: lin - Q alpha with Q = M (x) K, recomputed from the original data
 		if(checkGrad){
 			for(std::size_t v = 0; v != this->m_activeVar; ++v){
 				Variable const& xv = this->m_variables[v];
-				std::size_t ov = this->m_examples[xv.i].index; unsigned int yv = labels0[ov];
+				std::size_t ov = this->m_examples[xv.example].index; unsigned int yv = labels0[ov];
 				double g = this->m_linear(v), scale = std::fabs(g);
 				for(std::size_t w = 0; w != nv; ++w){
 					Variable const& xw = this->m_variables[w];
-					std::size_t ow = this->m_examples[xw.i].index; unsigned int yw = labels0[ow];
+					std::size_t ow = this->m_examples[xw.example].index; unsigned int yw = labels0[ow];
 					double m = 0; {
 						QpSparseArray<double>::Row const& row = M.row(c * (yv * P + xv.p) + yw);
 						m = row.defaultvalue;
@@ -142,8 +163,8 @@ struct Probe: public QpMcBoxDecomp<SynthMatrix>{
 	}
 };
 
-struct BiasProbe: public BiasSolver<SynthMatrix>{
-	BiasProbe(QpMcBoxDecomp<SynthMatrix>* p): BiasSolver<SynthMatrix>(p){}
+struct BiasProbe: public BiasSolverSimplex<SynthMatrix>{
+	BiasProbe(QpMcSimplexDecomp<SynthMatrix>* p): BiasSolverSimplex<SynthMatrix>(p){}
 	void update(RealVector const& step, QpSparseArray<double> const& nu){ this->performBiasUpdate(step, nu); }
 };
 
@@ -172,10 +193,10 @@ double shiftVal(long long num, long long shift){ return std::ldexp((double)num, 
 }
 
 // returns true if the op was recognised
-bool c16BoxOp(std::vector<std::string> const& t, std::string& out){
+bool c16SimplexOp(std::vector<std::string> const& t, std::string& out){
 	std::string const& op = t[0];
 	std::vector<long long> a;
-	if(op == "box"){
+	if(op == "sbox"){
 		if(t.size() < 8 || !parseInts(t, 2, a) || a.size() < 6){ out = "bad-op"; return true; }
 		std::size_t c = a[0], n = a[1];
 		QpSparseArray<double> nu, M;
@@ -200,44 +221,58 @@ bool c16BoxOp(std::vector<std::string> const& t, std::string& out){
 		out = S.prob->dump() + " #x=" + (S.exact ? "1" : "0") + S.prob->oracle(S.K0, S.labels0, S.M, S.C, true);
 		return true;
 	}
-	if(op != "smo" && op != "killex" && op != "deactvar" && op != "deactex" && op != "shrink" && op != "unshrink" && op != "adddelta"
-		&& op != "label" && op != "select1" && op != "solve" && op != "biasupd") return false;
+	if(op != "xsmo" && op != "xkillex" && op != "xdeactvar" && op != "xshrink" && op != "xunshrink" && op != "xadddelta"
+		&& op != "xlabel" && op != "xselect" && op != "xkkt" && op != "xsolve" && op != "xbiasupd") return false;
 	if(!S.prob || !parseInts(t, 1, a)){ out = "bad-op"; return true; }
 	Probe& p = *S.prob;
 	std::string pre, stopOrc;
 	std::feclearexcept(FE_ALL_EXCEPT);
-	if(op == "smo" && a.size() == 2){
+	if(op == "xsmo" && a.size() == 2){
 		if(!(a[0] >= 0 && a[1] >= 0 && (std::size_t)a[0] < p.aV() && (std::size_t)a[1] < p.aV())){ out = "bad-op"; return true; }
 		p.updateSMO(a[0], a[1]);
-	}else if(op == "deactvar" && a.size() == 1){
+	}else if(op == "xdeactvar" && a.size() == 1){
 		if(!(a[0] >= 0 && (std::size_t)a[0] < p.aV())){ out = "bad-op"; return true; }
 		p.dvar(a[0]);
-	}else if(op == "deactex" && a.size() == 1){
-		if(!(a[0] >= 0 && (std::size_t)a[0] < p.aE() && p.exActive(a[0]) == 0)){ out = "bad-op"; return true; }
-		p.dex(a[0]);
-	}else if(op == "killex" && a.size() == 1){
+	}else if(op == "xkillex" && a.size() == 1){
 		if(!(a[0] >= 0 && (std::size_t)a[0] < S.n)){ out = "bad-op"; return true; }
 		p.killex(a[0]);
-	}else if(op == "unshrink" && a.empty()){
+	}else if(op == "xunshrink" && a.empty()){
 		p.unshrink();
-	}else if(op == "shrink" && a.size() == 2){
+	}else if(op == "xshrink" && a.size() == 2){
+		std::vector<Probe::VarInfo> before = p.snapshot();
+		bool wasUnshrinked = p.dump().find(" un=1 ") != std::string::npos;
 		bool r = p.shrink(shiftVal(a[0], a[1]));
+		// oracle: shrink must not deactivate a variable that violates the KKT conditions (one that can be decreased,
+		// or increased while its example is strictly inside the simplex) — the solve loop relies on it: it unshrinks,
+		// sees checkKKT() >= eps, shrinks again and expects the next selection to see the violator.
+		// (skipped when this call unshrinked first: then the gradients of re-activated variables were recomputed)
+		std::vector<Probe::VarInfo> after = p.snapshot();
+		bool reUnshrinked = !wasUnshrinked && p.dump().find(" un=1 ") != std::string::npos;
+		if(!reUnshrinked)
+			for(std::size_t k = 0; k != before.size(); ++k)
+				if(before[k].active && !after[k].active){
+					if(before[k].a > 0.0 && before[k].g < 0.0){ stopOrc += " !oracle shrink-deactivated-violator"; break; }
+					if(before[k].vs < S.C && before[k].g > 0.0){ stopOrc += " !oracle shrink-deactivated-violator"; break; }
+				}
 		pre = std::string("ret=") + (r ? "1 " : "0 ");
-	}else if(op == "adddelta"){
+	}else if(op == "xadddelta"){
 		if(a.size() != S.n * S.P){ out = "bad-op"; return true; }
 		RealMatrix d(S.n, S.P);
 		for(std::size_t i = 0; i != S.n; ++i) for(std::size_t q = 0; q != S.P; ++q) d(i,q) = (double)a[i*S.P + q];
 		p.addDeltaLinear(d);
-	}else if(op == "label" && a.size() == 1){
+	}else if(op == "xlabel" && a.size() == 1){
 		if(!(a[0] >= 0 && (std::size_t)a[0] < S.n)){ out = "bad-op"; return true; }
 		unsigned int l = p.label(a[0]);
 		std::ostringstream os; os << "label=" << l << " "; pre = os.str();
 		if(l != S.labels0[a[0]]) pre = pre;   // reported by the oracle below
-	}else if(op == "select1" && a.empty()){
+	}else if(op == "xkkt" && a.empty()){
+		double v = p.checkKKT();
+		std::ostringstream os; os << "kkt=" << bits(v) << " "; pre = os.str();
+	}else if(op == "xselect" && a.empty()){
 		// selectWorkingSet (first and second order choice), observed through the public interface
 		std::size_t i = 0, j = 0; double v = p.selectWorkingSet(i, j);
-		std::ostringstream os; os << "i=" << (v == 0.0 ? 0 : i) << " j=" << (v == 0.0 ? 0 : j) << " viol=" << bits(v) << " "; pre = os.str();
-	}else if(op == "solve" && a.size() == 3){
+		std::ostringstream os; os << "i=" << i << " j=" << j << " viol=" << bits(v) << " "; pre = os.str();
+	}else if(op == "xsolve" && a.size() == 3){
 		// the real decomposition loop QpSolver::solve on the real problem object, from its current state
 		if(a[2] < 0){ out = "bad-op"; return true; }
 		QpStoppingCondition stop; stop.minAccuracy = shiftVal(a[0], a[1]); stop.maxIterations = (unsigned long long)a[2];
@@ -252,7 +287,7 @@ bool c16BoxOp(std::vector<std::string> const& t, std::string& out){
 			if(!(p.checkKKT() < stop.minAccuracy)) stopOrc += " !oracle stopped-not-kkt";
 		}else if(prop.type != QpMaxIterationsReached) stopOrc += " !oracle stop-type";
 		if(prop.iterations > stop.maxIterations) stopOrc += " !oracle iterations-exceed-limit";
-	}else if(op == "biasupd"){
+	}else if(op == "xbiasupd"){
 		// the real performBiasUpdate: bias step -> change of the linear part (and of the gradient)
 		std::size_t classes = S.nu.width();
 		if(a.size() != 2 * classes){ out = "bad-op"; return true; }
@@ -263,7 +298,7 @@ bool c16BoxOp(std::vector<std::string> const& t, std::string& out){
 	}else{ out = "bad-op"; return true; }
 	if(std::fetestexcept(FE_INEXACT)) S.exact = false;
 	std::string orc = p.oracle(S.K0, S.labels0, S.M, S.C, true) + stopOrc;
-	if(op == "label" && p.label(a[0]) != S.labels0[a[0]]) orc += " !oracle label-after-shrink";
+	if(op == "xlabel" && p.label(a[0]) != S.labels0[a[0]]) orc += " !oracle label-after-shrink";
 	out = pre + p.dump() + " #x=" + (S.exact ? "1" : "0") + orc;
 	return true;
 }
